@@ -26,12 +26,27 @@ ROUND2_FIX = {
  "C07c": "C07 drove read_chunks directly, never Archive::chunk_stream on a source with repeated chunks -> chunk_stream leg over all subsets",
  "C08d": "the scripted file was 12 bytes: sizes beyond 64 KiB unreachable -> read_at / read_chunks around 2^16..2^18 on a 300 kB file",
  "C11c": "C11 had no run starting from the debris of a failed run -> stale temp file in every other run of the stdin leg",
+ "C12d": "every compress of the C12 binary leg wrote to a fresh path -> one --force-create run per group over an existing, longer file",
+ "C13c": "the strace leg used 64-byte hashes only -> every case also with --hash-length 16",
+ "C14d": "the quick grid passed no extra option on 'output exists' cells -> --verify-output on every existing-file state",
+ "C15d": "declared sizes were adversarial one descriptor at a time -> a run of 64 adjacent descriptors of 256 MiB each (and 3 x 4 GiB in thorough)",
+ "C16c": "every failing clone failed after a successful open -> -f onto a dangling symlink and onto a running executable",
+ "C16d": "no run with -v / -vv -> verbosity flags on clone and compress cases",
+ "C17d": "C17 never cloned in place -> the CLI slice also clones over a prior output holding the chunks in reverse order",
+}
+# written by the agents, confirmed to change behaviour, but judged NOT to break the property as stated: not kept
+REJECTED = {
+ "C13d": "--force-create truncates the prior output before it is scanned: the scan then finds nothing in place, so the statement (about locations the scan found) holds vacuously; the author's own notes say so",
+ "C14c": "an archive without a compression sub-message is accepted and cloned correctly instead of being refused: the change moves the line between valid and invalid archives (proto3 reads a missing sub-message as defaults), it does not touch an output on a refusal",
 }
 rows = []
 for pid in [f"C{i:02d}" for i in range(1, 18)]:
     for v in "abcd":
         d = f"/tmp/seed/{pid}"
         if not os.path.exists(f"{d}/{v}.eval.json"):
+            continue
+        if f"{pid}{v}" in REJECTED:
+            rows.append(f"| {pid}{v} | not kept: {REJECTED[pid + v]} | - | - | - |")
             continue
         r = subprocess.run([sys.executable, "/verif/lib/seed_store.py", pid, v], capture_output=True, text=True)
         meta_p = f"/verif/seeded/{pid}{v}/meta.json"
